@@ -239,6 +239,11 @@ where
     chk!(is_reach(&post.cl[1]), "c01: bystander client keeps the reachable shape");
     chk!(discipline_ok(&h.w().mon), "c01: storage preconditions and transaction discipline respected");
     chk!(r != OpRes::Error, "c01: no error without a storage fault");
+    if let OpRes::Accepted { vid, .. } = r {
+        // the chain is walked FROM THE PARENT THE CLIENT NAMED: the accepted version hangs on it
+        let c = post.get(if s.slot == NCL { 0 } else { s.slot });
+        chk!(c.n >= 1 && c.vers[c.n - 1].vid == vid && c.vers[c.n - 1].parent == s.op.arg, "c01: an accepted version is stored as the child of the parent the request named");
+    }
     if KIND == 0 || KIND == 4 {
         cov!(matches!(r, OpRes::Accepted { .. }) && s.db.get(if s.slot == NCL { 0 } else { s.slot }).n == C - 1, "c01.cov: append at full bound");
     }
@@ -498,6 +503,11 @@ where
         }
     } else if !unspec {
         chk!(res_eq(&r, &sres) && post == spost, "c05: without a fault the request behaves as specified");
+    }
+    if fired && (failed_call == K_ADD_VERSION || failed_call == K_SET_SNAPSHOT || failed_call == K_NEW_CLIENT) {
+        // a backend whose write is several statements keeps the first of them if the
+        // transaction is committed all the same (SQLite: INSERT the version, UPDATE the client)
+        chk!(h.w().mon.commits == 0, "c05: a transaction in which a write failed is not committed");
     }
     chk!(h.w().mon.open == 0, "c05: no transaction left open after a failure");
     chk!(h.w().live == post, "c05: nothing half-applied lingers");
